@@ -260,7 +260,11 @@ DEFECT_EXHIBITS = [
     ("Lifecycle_x_heartbeat.cfg", "AllClosedAfterClose", "heartBeat scheduled after controlConn.close starts and reconnects after Close"),
     ("Lifecycle_x_latepool.cfg", "AllClosedAfterClose", "a pool created by a refresh after policyConnPool.Close is never closed"),
     ("Lifecycle_x_selfwait.cfg", "deadlock", "reconnect run inline on the refresh flusher waits for the flusher itself"),
+    ("Lifecycle_x_dropbc.cfg", "deadlock", "a flusher that drops the pending broadcaster on stop leaves its listeners waiting"),
 ]
+
+DEB_GOALS = ["StopBusyPending", "StopBusyServedAndPending", "StopBusyTwoPending", "StopWokePending", "StopSelectPending",
+             "RequestAfterStopBusy", "RequestAfterExit"]
 
 
 def _monitor(ctx, path, name):
@@ -310,6 +314,7 @@ def run(ctx):
     bg.append(pool.submit(must, "MC_Pool", "MC_Pool_quick.cfg", workers=W or 4, timeout=600, extra=["-lncheck", "final"]))
     bg.append(pool.submit(must, "Lifecycle", "Lifecycle_fixed.cfg", workers=W or 6, timeout=600))
     bg.append(pool.submit(must, "Lifecycle", "Lifecycle_fixed_live.cfg", workers=W or 4, timeout=900, extra=["-lncheck", "final"]))
+    bg.append(pool.submit(must, "Lifecycle", "Lifecycle_deb_live.cfg", workers=W or 2, timeout=600, extra=["-lncheck", "final"]))
     if not quick:
         bg.append(pool.submit(must, "MC_Pool", "MC_Pool_thorough.cfg", workers=W or 8, timeout=1500, heap="8g", extra=["-lncheck", "final"]))
         bg.append(pool.submit(must, "Lifecycle", "Lifecycle_fixed_live2.cfg", workers=W or 4, timeout=1500, heap="8g", extra=["-lncheck", "final"]))
@@ -341,9 +346,22 @@ def run(ctx):
         raise vf.Inconclusive("debouncer simulation produced no edges")
     walks = walks_from_sim(dinit[0], dedges)
     deb_scheds = [cex_sched] + [deb_schedule(w, i + 1, "sim", final_blocked=False) for i, w in enumerate(walks)]
+    # coverage goals: TLC produces a behaviour of the repaired protocol that reaches each named situation
+    # (stop while refreshFn runs with listeners pending, requests after stop, ...)
+    def goal(gname):
+        gp = os.path.join(ctx.tmp, "goal_%s.json" % gname)
+        r = vf.run_tlc(ctx, "MC_Lifecycle", "MC_Lifecycle_goal_%s.cfg" % gname, workers=1, timeout=300, deadlock=False,
+                       extra=["-noGenerateSpecTE", "-dumpTrace", "json", gp], name="goal_" + gname, quiet=True)
+        return gname, r, gp
+    for gname, r, gp in pool.map(goal, DEB_GOALS):
+        if r.violated != "Goal_" + gname or not os.path.exists(gp):
+            raise vf.Inconclusive("Lifecycle.tla cannot reach the situation %s any more (violated=%s error=%s)" % (gname, r.violated, r.error))
+        note(r, "MC_Lifecycle_goal_" + gname)
+        gst = [deb_proj_of_state(x[1]) for x in json.load(open(gp))["counterexample"]["state"]]
+        deb_scheds.append(deb_schedule(gst, 100000 + len(deb_scheds), "goal:" + gname, final_blocked=False))
     dsp = os.path.join(ctx.tmp, "deb_schedules.ndjson")
     vf.write_ndjson(dsp, deb_scheds)
-    ctx.log("debouncer behaviours: 1 counterexample + %d simulation walks" % len(walks))
+    ctx.log("debouncer behaviours: 1 counterexample + %d simulation walks + %d goal-directed behaviours" % (len(walks), len(DEB_GOALS)))
 
     # ---- 2. Pool: every edge of the eager graph -> schedules
     re_ = vf.run_tlc(ctx, "MC_Pool", "MC_Pool_edges.cfg", workers=1, timeout=600, deadlock=False, name="pool_edges",
@@ -472,7 +490,7 @@ def run(ctx):
     for r in sorted(dres, key=lambda r: r["n"]):
         drecs.append(dict(sched=r["n"], k=0, ev="init", obj=0, a=0, size=0, closed=False, conns=[], open=[], dead=[], gor=0, q=""))
         drecs.append(dict(sched=r["n"], k=1, ev="d_end", obj=0, a=r["followed"], size=0, closed=False, conns=[], open=[], dead=[],
-                          gor=0, q="hang" if r["hang"] else "ok"))
+                          gor=0, q="hang" if r["hang"] else ("listener-stuck" if r.get("unanswered") else "ok")))
     dmp = os.path.join(ctx.tmp, "deb_mon.ndjson")
     vf.write_ndjson(dmp, drecs)
     dviol, _, _, rmon2 = _monitor(ctx, dmp, "mon_deb")
@@ -485,12 +503,19 @@ def run(ctx):
         (", stuck: " + cexr["stuck"]) if cexr["stuck"] else "", sum(1 for r in dres if r["hang"] and r["n"] != 0), len(dres) - 1))
     for v in dviol:
         r = byn[v["sched"]]
+        if v["kind"] == "RequesterAnswered":
+            ctx.violation("refresh-listener-unanswered:" + (r.get("unanswered_class") or "unknown"),
+                          "refreshNow() listener(s) %s on the real refreshDebouncer were neither answered nor closed within the "
+                          "watchdog although every stop() had returned (%s, behaviour %d, %s)" % (
+                              ",".join(r["unanswered"]), r.get("unanswered_class"), r["n"], r["origin"]),
+                          dict(schedule=[s for s in deb_scheds if s["n"] == r["n"]][:1], result={k: r[k] for k in r if k != "dump"}))
+            continue
         key = "refresh-debouncer-stop-hang" if r["sig"] == "flusher-exited-before-quit" else "refresh-debouncer-stop-hang-" + (r["sig"] or "other")
         ctx.violation(key, "refreshDebouncer.stop() did not return within the watchdog on the real debouncer under the %s "
                       "(the flusher, woken for a refresh, saw `stopped` and returned; stop blocks on the unbuffered quit send)" % (
                           "deadlock schedule TLC derives from Lifecycle.tla" if r["origin"] == "cex" else "simulation walk %d" % r["n"]),
                       dict(schedule=[s for s in deb_scheds if s["n"] == r["n"]][:1], result={k: r[k] for k in r if k != "dump"}, stack=r["dump"]))
-    unanswered = sum(1 for r in dres for v in r["req"].values() if v == "waiting")
+    unanswered = sum(len(r.get("unanswered") or []) for r in dres)
     unfollowed = sum(1 for r in dres if r["stuck"])
 
     # ---- 4c. named scenarios
@@ -543,9 +568,9 @@ def run(ctx):
             what = "a query issued after Close returned did not fail with ErrSessionClosed"
         elif kind == "CallersReturn":
             if i.get("stuck") == "Session.refreshRing":
-                key = "refresh-now-after-stop-unanswered"
+                key = "refresh-listener-unanswered:session-refreshRing-caller"
                 what = ("Session.refreshRing() (the call controlConn.reconnect makes) racing Session.Close never returned: "
-                        "refreshNow() after stop() registers a listener nobody answers")
+                        "its refreshNow() listener was neither answered nor closed")
             else:
                 key = "caller-stuck-after-close:" + (i.get("stuck") or "unknown")
                 what = "a call that was in flight during Close never returned (" + (i.get("stuck") or "?") + ")"
@@ -621,7 +646,8 @@ def run(ctx):
         pool_schedules_diverged=len(diverged), pool_simulation_walks=nwalk, pool_trace_records_monitored=plines,
         debouncer_behaviours_replayed=len(dres), debouncer_counterexample_reproduced=bool(cexr["hang"]),
         debouncer_walks_hanging=sum(1 for r in dres if r["hang"] and r["n"] != 0), debouncer_walks_not_followable=unfollowed,
-        refresh_now_after_stop_unanswered=unanswered,
+        refresh_listeners_unanswered=unanswered, debouncer_goal_behaviours=len(DEB_GOALS),
+        refresh_listeners_watched=sum(len(r["req"]) for r in dres),
         scenarios={r["name"]: (r["viol"] or "ok") + " | " + r["obs"] for r in sres},
         session_runs=nsess, session_records_monitored=slines, session_setup_errors=ssum["Errors"],
         race_reports_in_driver=races if not quick else "not run in the quick tier",
@@ -631,8 +657,7 @@ def run(ctx):
                  dict(kind="debouncer deadlock schedule from TLC", steps=["%s %s" % (s["cmd"], s["who"]) for s in cex_sched["steps"]],
                       real_result={k: cexr[k] for k in ("hang", "sig", "exited", "followed", "steps")})],
     )
-    ctx.notes.append("observations (not verdicts): refreshNow() after stop() unanswered in %d replayed requests; "
-                     "eventDebouncer.stop() is not idempotent but Session.Close guards it" % unanswered)
+    ctx.notes.append("observation (not a verdict): eventDebouncer.stop() is not idempotent but Session.Close guards it")
     ctx.assumptions += [
         "bounded instances: pool size 2 (3 in the thorough tier), 2-3 fill triggers, 2 failing connects, 1 node-side kill, 1-2 Close calls; "
         "Lifecycle with 2 closers, 1 requester, 1 debounce, 1 event, 1 failing probe, 1 control-connection failure, 1 host addition",
